@@ -12,6 +12,8 @@
 //!    `single`, `multi std|ext`), answered by the model's `compress` / `singleChunk` /
 //!    `multiChunk` / `multiChunkExt`; hand-made containers with Frame chunks and encrypted chunks
 //!    whose inner payload starts with `F` / `E` are decoded on both sides.
+//!    Long byte strings with long periodic stretches are written `unit*n` (see `hex` below), so
+//!    chunks of hundreds of KiB that compress 1000:1 cost a few hundred bytes on the line.
 //! O: identity of decode∘parse∘serialize∘build on the added bytes, truth of every chunk-table row
 //!    (sizes recomputed from the chunk as serialised and as decoded, MD5 by the independent `md5`
 //!    crate), "error instead of garbage", and the compressor law used by the theorems.
@@ -73,7 +75,13 @@ fn hex(b: &[u8]) -> String {
     if lit < n {
         segs.push(verif_harness::hex(&b[lit..n]));
     }
-    segs.join("+")
+    if !segs.iter().any(|x| x.contains('*')) {
+        return verif_harness::hex(b);
+    }
+    let text = segs.join("+");
+    // whatever is printed denotes exactly `b` (equal response lines mean equal byte strings)
+    assert!(unhex(&text).as_deref() == Some(b), "compact notation does not read back");
+    text
 }
 
 fn unhex(s: &str) -> Option<Vec<u8>> {
@@ -608,7 +616,7 @@ enum Kind {
     Period,
     /// a mode byte N/Z/4/E/F followed by a constant run
     ModeByteFirst,
-    /// zeros with 1..=4 random bytes at random places (printed in plain hex: sizes <= 64 KiB)
+    /// zeros with 1..=4 random bytes at random places
     Sparse,
 }
 
@@ -669,14 +677,12 @@ fn compressible_family(s: &mut Session, rng: &mut Rng, thorough: bool, pool: &[(
                 if !thorough && n > 256 * K && (ei + mi + flip) % 2 == 0 {
                     continue;
                 }
-                // quick tier: every compactly printable kind of content on every route for chunks
-                // of 32 KiB and 64 KiB (where deflate passes 512:1), Sparse (plain hex on the
-                // line) on every third route; at the other sizes the kinds take turns (every
-                // size x mode sees each of Zero / Const / Period / ModeByteFirst)
-                let kinds: Vec<Kind> = if (n > 16 * K && n <= 64 * K) || (thorough && n <= 1024 * K) {
-                    all_kinds.iter().copied().filter(|k| *k != Kind::Sparse || (n <= 64 * K && (thorough || turn % 3 == 0))).collect()
+                // every kind of content on every route for chunks up to 64 KiB (thorough: 1 MiB);
+                // above, the kinds take turns (every size x mode sees each of them)
+                let kinds: Vec<Kind> = if n <= 64 * K || (thorough && n <= 1024 * K) {
+                    all_kinds.to_vec()
                 } else {
-                    vec![all_kinds[turn % 4]]
+                    vec![all_kinds[turn % 5]]
                 };
                 for kind in kinds {
                     let d = compressible(rng, kind, n, None);
@@ -770,7 +776,7 @@ fn compressible_family(s: &mut Session, rng: &mut Rng, thorough: bool, pool: &[(
                 if !thorough && et == Some(0x41) && n != 2 * 32 * K {
                     continue;
                 }
-                let kind = *rng.pick(&[Kind::Zero, Kind::Const, Kind::Period, Kind::ModeByteFirst]);
+                let kind = *rng.pick(&all_kinds);
                 let d = compressible(rng, kind, n, None);
                 let mut p = Prog::new();
                 p.big = true;
@@ -1012,7 +1018,7 @@ fn entry_case(s: &mut Session, line: &str, views: bool, verbose: bool) {
         dec = real.run(&l.split(' ').collect::<Vec<_>>()).unwrap();
         let l2 = format!("decplain {} {}", h, tab);
         let decplain = real.run(&l2.split(' ').collect::<Vec<_>>()).unwrap();
-        if views && bytes.len() <= 3000 && p.added.len() <= 70_000 {
+        if views && bytes.len() <= 3000 && p.added.len() <= 300_000 {
             s.line(&l, &dec);
             s.line(&l2, &decplain);
             let l3 = format!("rows {}", h);
@@ -1062,12 +1068,7 @@ fn entry_case(s: &mut Session, line: &str, views: bool, verbose: bool) {
         s.tally(&format!("entry.{}.err", p.shape[0]));
     }
     s.case(if built.is_some() { Some(line) } else { None });
-    for ((m, plain), comp) in &p.tab {
-        let cm = if *m == 'Z' { CompressionMode::ZLib } else { CompressionMode::LZ4 };
-        if decompress_chunk(comp, cm).ok().as_deref() != Some(&plain[..]) {
-            s.oracle_fail("param-law-decompress-compress", &format!("decompress_chunk(compress_chunk(x)) != x for mode {m}, x = {}", trunc(&hex(plain))), &[]);
-        }
-    }
+    param_law(s, &p, &replay);
 }
 
 /// after a call that never returned the runaway thread keeps allocating: write what we have and leave
@@ -1300,7 +1301,7 @@ fn entry_points(s: &mut Session, rng: &mut Rng, thorough: bool, pool: &[(u64, [u
 /// O: evaluated on the implementation's outputs only.
 fn oracle(s: &mut Session, p: &Prog, step_resps: &[String], built: Option<&[u8]>, dec: &str) {
     let any_err = step_resps.iter().any(|r| r != "ok");
-    let replay = &p.lines;
+    let replay = &replay_of(p);
     // an encoder call that cannot honour the identity must return an error; the harness's own
     // account of which calls are honourable must agree with the implementation
     if any_err != p.expect_err && step_resps.iter().all(|r| r != "panic") {
@@ -1385,6 +1386,37 @@ fn oracle(s: &mut Session, p: &Prog, step_resps: &[String], built: Option<&[u8]>
     }
 }
 
+/// the request lines that reproduce the case under `--replay`: a builder program is evaluated at
+/// its `build` line
+fn replay_of(p: &Prog) -> Vec<String> {
+    let mut v = p.lines.clone();
+    if v.first().is_some_and(|l| l == "begin") {
+        v.push("build".into());
+    }
+    v
+}
+
+/// The parameter law the theorems assume, on the real library: whatever `compress_chunk` returned
+/// for a chunk of this case, `decompress_chunk` maps back to the chunk (the encoder's own output
+/// must be acceptable to the decoder, whatever the ratio).
+fn param_law(s: &mut Session, p: &Prog, replay: &[String]) {
+    for ((m, plain), comp) in &p.tab {
+        let cm = if *m == 'Z' { CompressionMode::ZLib } else { CompressionMode::LZ4 };
+        let got = decompress_chunk(comp, cm);
+        if got.as_ref().ok().map(|v| &v[..]) != Some(&plain[..]) {
+            let got = match &got {
+                Ok(v) => format!("Ok({})", trunc(&hex(v))),
+                Err(e) => format!("Err({e})"),
+            };
+            s.oracle_fail(
+                "param-law-decompress-compress",
+                &format!("decompress_chunk(compress_chunk(x)) != x for mode {m}, x = {} ({} bytes, compressed to {} bytes = {}:1): decompress_chunk returned {got}", trunc(&hex(plain)), plain.len(), comp.len(), plain.len() / comp.len().max(1)),
+                replay,
+            );
+        }
+    }
+}
+
 /// Decompress-graph points outside the compressor's range: when a chunk was encrypted with a
 /// foreign block index, the wrongly decrypted payload may start with `Z`/`4` and the decoder then
 /// runs the real decompressor on garbage. The model's `Codec.decompress` is a parameter, so the
@@ -1454,7 +1486,7 @@ fn run_prog(s: &mut Session, p: &Prog) {
         dec = real.run(&l.split(' ').collect::<Vec<_>>()).unwrap();
         s.line(&l, &dec);
         // the remaining views repeat the container on the line; for big containers only `dec`
-        let small = bytes.len() <= 3000 && p.added.len() <= 70_000;
+        let small = bytes.len() <= 3000 && p.added.len() <= 300_000;
         if small {
             let l = format!("decplain {} {}", h, tab);
             let r = real.run(&l.split(' ').collect::<Vec<_>>()).unwrap();
@@ -1480,18 +1512,12 @@ fn run_prog(s: &mut Session, p: &Prog) {
         }
         built = Some(bytes);
     } else if !any_err && !p.plain_chunks.is_empty() {
-        s.oracle_fail("build-fails", &format!("build returned {b} for a program whose calls all succeeded"), &p.lines);
+        s.oracle_fail("build-fails", &format!("build returned {b} for a program whose calls all succeeded"), &replay_of(p));
     }
     oracle(s, p, &resps, built.as_deref(), &dec);
     let key = p.lines.join("|");
     s.case(if built.is_some() && !p.plain_chunks.is_empty() { Some(&key) } else { None });
-    // the parameter law the theorems assume, on the real library
-    for ((m, plain), comp) in &p.tab {
-        let cm = if *m == 'Z' { CompressionMode::ZLib } else { CompressionMode::LZ4 };
-        if decompress_chunk(comp, cm).ok().as_deref() != Some(&plain[..]) {
-            s.oracle_fail("param-law-decompress-compress", &format!("decompress_chunk(compress_chunk(x)) != x for mode {m}, x = {}", trunc(&hex(plain))), &[]);
-        }
-    }
+    param_law(s, p, &replay_of(p));
 }
 
 /// replay of request lines from a case file: lines are fed as they are; the oracle is evaluated
@@ -1615,15 +1641,17 @@ fn replay(s: &mut Session, lines: &[String]) {
                     std::mem::swap(&mut q, &mut p);
                     q.lines.pop();
                     oracle(s, &q, &resps, Some(&bytes), &dec);
+                    param_law(s, &q, &replay_of(&q));
                     std::mem::swap(&mut q, &mut p);
                 } else {
                     let mut q = Prog::new();
                     std::mem::swap(&mut q, &mut p);
                     q.lines.pop();
                     if !resps.iter().any(|r| r != "ok") && !q.plain_chunks.is_empty() {
-                        s.oracle_fail("build-fails", &format!("build returned {r}"), &q.lines);
+                        s.oracle_fail("build-fails", &format!("build returned {r}"), &replay_of(&q));
                     }
                     oracle(s, &q, &resps, None, "");
+                    param_law(s, &q, &replay_of(&q));
                     std::mem::swap(&mut q, &mut p);
                 }
             }
@@ -1636,7 +1664,7 @@ fn main() {
     let args = Args::parse();
     quiet_panics();
     let mut s = Session::new(&args.out);
-    s.rule = "seeded builder programs of 1..8 calls over {with_compression N/Z/4/E/F, with_chunk_size_unchecked 0/1/2/3/5/16/64/1024/default, with_encryption / without_encryption, add_data, add_mixed_data(None|Some), add_encrypted_data(index = position | foreign), add_chunk(ChunkData::new)} with Salsa20 / ARC4 / unknown cipher types, payload lengths 0, 1, cs-1, cs, cs+1, 2cs, 2cs+1, 3cs+r, random, first byte forced to N/Z/4/E/F in a third of them, constant / periodic / random content; plus an exhaustive sweep of one- and two-call programs over {add_data, add_mixed_data, add_encrypted_data, add_chunk}^2 x payload lengths {0,1,cs-1,cs,cs+1,2cs,2cs+1} x modes x {plain, Salsa20, ARC4}; plus the entry points outside the builder: BlteFile::compress exhaustively over chunk sizes {0,1,2,4,5,64} x lengths {0,1,cs-1,cs,cs+1,2cs,2cs+1,3cs+2} x modes N/Z/4/E/F and seeded random (chunk sizes 0..4096), single_chunk over modes x lengths, multi_chunk / multi_chunk_extended over vectors of 0..6 ChunkData::new chunks (random modes incl. E/F) and over hand-made from_compressed chunks (K only), nested containers as content, hand-made containers with a Frame chunk (single-chunk and at every table position, both table formats) and encrypted chunks whose inner payload starts with F / E; non-trivial = every call succeeded, a container with >= 1 chunk was produced and decoded (or, for the hand-made Frame / nested containers, parsed and handed to both decoders); distinct = canonical text of the whole program / request".into();
+    s.rule = "seeded builder programs of 1..8 calls over {with_compression N/Z/4/E/F, with_chunk_size_unchecked 0/1/2/3/5/16/64/1024/default, with_encryption / without_encryption, add_data, add_mixed_data(None|Some), add_encrypted_data(index = position | foreign), add_chunk(ChunkData::new)} with Salsa20 / ARC4 / unknown cipher types, payload lengths 0, 1, cs-1, cs, cs+1, 2cs, 2cs+1, 3cs+r, random, first byte forced to N/Z/4/E/F in a third of them, constant / periodic / random content; plus an exhaustive sweep of one- and two-call programs over {add_data, add_mixed_data, add_encrypted_data, add_chunk}^2 x payload lengths {0,1,cs-1,cs,cs+1,2cs,2cs+1} x modes x {plain, Salsa20, ARC4}; plus the entry points outside the builder: BlteFile::compress exhaustively over chunk sizes {0,1,2,4,5,64} x lengths {0,1,cs-1,cs,cs+1,2cs,2cs+1,3cs+2} x modes N/Z/4/E/F and seeded random (chunk sizes 0..4096), single_chunk over modes x lengths, multi_chunk / multi_chunk_extended over vectors of 0..6 ChunkData::new chunks (random modes incl. E/F) and over hand-made from_compressed chunks (K only), nested containers as content; plus the family of highly compressible payloads in large single chunks: one chunk of 16 KiB / 32 KiB / 64 KiB / 256 KiB / 1 MiB (thorough: 12 sizes up to 4 MiB incl. 32 KiB +-1) of all-zero / constant / period 2..8 / mode-byte-then-constant / sparse content x modes Z and 4 x routes {add_data plain, add_data under Salsa20, add_data under ARC4, one of add_mixed_data / add_encrypted_data / add_chunk plain or encrypted, BlteFile::compress, BlteFile::single_chunk} (every content kind on every route up to 64 KiB, kinds in turn above; above 256 KiB every other route per mode in the quick tier), chunk size = payload / payload+1 / 2x / default / usize::MAX, half of the builder programs with a small chunk in front, plus 1 MiB at the default chunk size, 3x64 KiB+5 at 64 KiB and 2x32 KiB at 32 KiB (several such chunks, plain / Salsa20 / ARC4), plus one random program in 30 as a large-chunk program (chunk sizes 16 KiB .. 1 MiB / usize::MAX, payload lengths cs-1, cs, cs+1, 2cs+1, cs/2..cs, constant / periodic / sparse content, modes Z / 4, encryption in half of them); the compression ratios reached are tallied (compress_chunk.ratio.*, compress_chunk.max-ratio.*, extra.max_compression_ratio_mode_*); hand-made containers with a Frame chunk (single-chunk and at every table position, both table formats) and encrypted chunks whose inner payload starts with F / E; non-trivial = every call succeeded, a container with >= 1 chunk was produced and decoded (or, for the hand-made Frame / nested containers, parsed and handed to both decoders); distinct = canonical text of the whole program / request".into();
     let mut rng = Rng::new(args.seed);
 
     if let Some(p) = &args.replay {
@@ -1738,6 +1766,11 @@ fn main() {
         }
     }
 
+    // highly compressible payloads in large single chunks (deterministic family, before the
+    // random programs so that a failure there is reported on its plainest witness)
+    compressible_family(&mut s, &mut rng, args.thorough(), &pool);
+    let mut s = exit_if_hung(s);
+
     // seeded random programs
     let n_prog = if args.thorough() { 20000 } else { 1500 };
     for k in 0..n_prog {
@@ -1754,7 +1787,7 @@ fn main() {
             p.mode = *rng.pick(&["Z", "Z", "4"]);
             p.lines.push(format!("mode {}", p.mode));
             p.fill = rng.byte();
-            p.kinds = *rng.pick(&[&[Kind::Zero][..], &[Kind::Const], &[Kind::Const], &[Kind::Const, Kind::Period, Kind::ModeByteFirst], &[Kind::Zero, Kind::ModeByteFirst]]);
+            p.kinds = *rng.pick(&[&[Kind::Zero][..], &[Kind::Const], &[Kind::Const], &[Kind::Const, Kind::Period, Kind::ModeByteFirst], &[Kind::Zero, Kind::ModeByteFirst, Kind::Sparse]]);
             if rng.chance(1, 2) {
                 let e = p.some_enc(&mut rng, &pool);
                 p.lines.push(format!("enc {}", e.toks()));
@@ -1791,10 +1824,6 @@ fn main() {
 
     // the encoder entry points outside the builder, Frame mode and nested containers
     entry_points(&mut s, &mut rng, args.thorough(), &pool);
-    let mut s = exit_if_hung(s);
-
-    // highly compressible payloads in large single chunks
-    compressible_family(&mut s, &mut rng, args.thorough(), &pool);
     let mut s = exit_if_hung(s);
 
     // the default chunk size (private constant 256 KiB): one payload just above it, plain and
